@@ -402,6 +402,10 @@ impl<'a> MslV<'a> {
                     return other(format!("appended parameter {} is not a reference", p.show()));
                 }
                 let n = p.args()[2].atom();
+                if gcells.iter().filter(|g| g.0 == n || g.0.rsplit("::").next() == Some(n)).count() > 1 {
+                    // two statics of one leaf name (different namespaces): the parameter's name does not say which one it carries
+                    return stuck(Stuck::Skip, "same-leaf-statics: the appended parameter's name fits two statics".into());
+                }
                 match gcells.iter().find(|g| g.0 == n || g.0.rsplit("::").next() == Some(n)) {
                     Some((_, c)) => bound.push(Bound::Ref(n.to_string(), self.ty_in(&p.args()[1], &ns)?, Place { cell: *c, path: vec![] })),
                     None => return other(format!("appended parameter {} names no static", n)),
